@@ -109,6 +109,13 @@ IsProp(t) == t \in {"proportionalhillpositive", "proportionalhillnegative"}
 Rate4(law, x, VV, pe) ==
     IF law.type = "general" THEN LET v == EvalE(law.rate, x, pe) IN <<v, v, v, v>>
     ELSE <<Det(law, x), Sto(law, x), Vol(law, x, VV), StoVol(law, x, VV)>>
+\* a reaction of an abstract model names the parameters its law reads (pn, "" = none): the law is re-resolved in
+\* the CURRENT environment, so a rule that assigns a parameter changes the rates that read it
+NoPn == [k |-> "", K |-> "", n |-> ""]
+Resolve(law, pn, pe) == [law EXCEPT !.k = IF pn.k = "" THEN @ ELSE pe[pn.k],
+                                    !.K = IF pn.K = "" THEN @ ELSE pe[pn.K],
+                                    !.n = IF pn.n = "" THEN @ ELSE pe[pn.n]]
+RxRate4(rxa, x, VV, gp) == LET pe == rxa.loc @@ gp IN Rate4(Resolve(rxa.law, rxa.pn, pe), x, VV, pe)
 RateDef(law, x, VV, pe) == IF law.type = "general" THEN DefE(law.rate, x, pe) ELSE Defined(law, x, VV)
 
 \* ------------------------------------------------------------------ rule frequencies
@@ -139,7 +146,7 @@ ApplySim(rules, x, gp) ==
 
 \* ------------------------------------------------------------------ abstract models and their meaning
 \* am = [init : Sp -> Rat, gp : name -> Rat (all global parameters), nrx : number of proper reactions,
-\*       rx : Seq([sto, dsto : Sp -> Int, law, loc : name -> Rat (local parameters), delay : [type, p1, p2]]),
+\*       rx : Seq([sto, dsto : Sp -> Int, law, pn, loc : name -> Rat (local parameters), delay : [type, p1, p2]]),
 \*       rules : Seq([target : name, rhs : expr, freq])]
 NoDelay == [type |-> "none", p1 |-> Zero, p2 |-> Zero]
 RuleTimes == <<[t |-> Zero, step |-> FALSE], [t |-> Zero, step |-> TRUE], [t |-> R(1, 2), step |-> FALSE],
@@ -151,13 +158,20 @@ Sem(am, P) ==
      stoich  |-> [r \in 1..Len(am.rx) |-> am.rx[r].sto],
      dstoich |-> [r \in 1..Len(am.rx) |-> am.rx[r].dsto],
      rates   |-> [r \in 1..Len(am.rx) |-> [i \in 1..Len(P) |->
-                      Rate4(am.rx[r].law, P[i].x, P[i].V, am.rx[r].loc @@ am.gp)]],
+                      RxRate4(am.rx[r], P[i].x, P[i].V, am.gp)]],
      delay   |-> [r \in 1..Len(am.rx) |-> am.rx[r].delay],
      rules   |-> [j \in 1..Len(am.rules) |->
                       [target |-> am.rules[j].target, freq |-> FreqSem(am.rules[j].freq),
                        vals |-> [i \in 1..Len(P) |-> EvalE(am.rules[j].rhs, P[i].x, am.gp)]]],
+     \* effect of the rule list at the probe times: species, (non-dummy) parameters, and the rates read afterwards
      rulefx  |-> [i \in 1..Len(P) |-> [q \in 1..Len(RuleTimes) |->
-                      ApplySeq(am.rules, P[i].x, am.gp, RuleTimes[q].t, RuleTimes[q].step).x]]]
+                      ApplySeq(am.rules, P[i].x, am.gp, RuleTimes[q].t, RuleTimes[q].step).x]],
+     rulefxp |-> [i \in 1..Len(P) |-> [q \in 1..Len(RuleTimes) |->
+                      LET st == ApplySeq(am.rules, P[i].x, am.gp, RuleTimes[q].t, RuleTimes[q].step) IN
+                      [n \in {z \in DOMAIN st.gp : z \notin DummyNames} |-> st.gp[n]]]],
+     rulefxr |-> [i \in 1..Len(P) |-> [q \in 1..Len(RuleTimes) |->
+                      LET st == ApplySeq(am.rules, P[i].x, am.gp, RuleTimes[q].t, RuleTimes[q].step) IN
+                      [r \in 1..Len(am.rx) |-> RxRate4(am.rx[r], st.x, P[i].V, st.gp)[1]]]]]
 
 AllDefined(am, P) == \A r \in 1..Len(am.rx), i \in 1..Len(P) :
                         RateDef(am.rx[r].law, P[i].x, P[i].V, am.rx[r].loc @@ am.gp)
@@ -167,7 +181,7 @@ RECURSIVE SumAM(_, _, _, _)
 SumAM(am, st, s, r) ==
     IF r = 0 THEN Zero
     ELSE RAdd(RMul(I(am.rx[r].sto[s] + am.rx[r].dsto[s]),
-                   Rate4(am.rx[r].law, st.x, One, am.rx[r].loc @@ st.gp)[1]),
+                   RxRate4(am.rx[r], st.x, One, st.gp)[1]),
               SumAM(am, st, s, r - 1))
 DerivAt(am, st) == [s \in Sp |-> SumAM(am, st, s, Len(am.rx))]
 AMDeriv(am, x) == DerivAt(am, ApplySim(am.rules, x, am.gp))
@@ -177,7 +191,8 @@ AMDerivDefined(am, x) ==
     \A r \in 1..Len(am.rx) : RateDef(am.rx[r].law, st.x, One, am.rx[r].loc @@ st.gp)
 
 \* ------------------------------------------------------------------ models (bioscrape programs)
-\* m = [prog : [decl, rx], x0 : Sp -> Rat, rules : Seq([type, target (species number), rhs, freq, haspar, pval])]
+\* m = [prog : [decl, rx], x0 : Sp -> Rat, rules : Seq([type, target (species number), tpar, rhs, freq, haspar, pval])]
+\* a rule assigns the species `target`, or, when tpar # "", the (named, global) parameter tpar
 \* rx = [re, pr, dre, dpr, law, delay, named, unset]; the rule parameter (if any) is RuleParName(j) = pval
 LawKeys(law) == IF law.type = "massaction" THEN <<"k">> ELSE IF law.type = "general" THEN law.gkeys ELSE <<"k", "K", "n">>
 DelayKeys(t) == IF t = "fixed" THEN <<"delay">> ELSE IF t = "gaussian" THEN <<"mean", "std">>
@@ -223,13 +238,19 @@ RuleParsUpTo(rules, j) == IF j = 0 THEN << >>
 \* every parameter of the model in creation order (dummies included)
 AllPars(m) == RxParsUpTo(m.prog.rx, Len(m.prog.rx)) \o RuleParsUpTo(m.rules, Len(m.rules))
 
+RuleTarget(ru) == IF ru.tpar = "" THEN SpName(ru.target) ELSE ru.tpar
 ModelAM(m) ==
     [init |-> m.x0, gp |-> PairsFun(AllPars(m)), nrx |-> Len(m.prog.rx),
      rx |-> [r \in 1..Len(m.prog.rx) |->
                 LET rx == m.prog.rx[r] IN
                 [sto |-> [s \in Sp |-> StoichN(rx, s)], dsto |-> [s \in Sp |-> DStoichN(rx, s)],
-                 law |-> rx.law, loc |-> EmptyF, delay |-> rx.delay]],
-     rules |-> [j \in 1..Len(m.rules) |-> [target |-> SpName(m.rules[j].target), rhs |-> m.rules[j].rhs,
+                 law |-> rx.law,
+                 pn |-> IF rx.law.type = "general" THEN NoPn
+                        ELSE [k |-> LawParName(m.prog.rx, r, 1),
+                              K |-> IF IsHill(rx.law.type) THEN LawParName(m.prog.rx, r, 2) ELSE "",
+                              n |-> IF IsHill(rx.law.type) THEN LawParName(m.prog.rx, r, 3) ELSE ""],
+                 loc |-> EmptyF, delay |-> rx.delay]],
+     rules |-> [j \in 1..Len(m.rules) |-> [target |-> RuleTarget(m.rules[j]), rhs |-> m.rules[j].rhs,
                                           freq |-> m.rules[j].freq]]]
 
 \* ------------------------------------------------------------------ documents
@@ -295,7 +316,7 @@ Export(m, stoch) ==
     [species |-> [i \in 1..NS |-> [id |-> SpName(i), hasAmt |-> FALSE, amt |-> Zero, hasConc |-> TRUE, conc |-> m.x0[i]]],
      params  |-> AllPars(m),
      rx      |-> [r \in 1..Len(m.prog.rx) |-> RxDoc(m.prog.rx, r, stoch)],
-     rules   |-> [j \in 1..Len(m.rules) |-> [kind |-> "assignment", var |-> SpName(m.rules[j].target),
+     rules   |-> [j \in 1..Len(m.rules) |-> [kind |-> "assignment", var |-> RuleTarget(m.rules[j]),
                                             math |-> m.rules[j].rhs, hasFreq |-> TRUE, freq |-> m.rules[j].freq]]]
 
 \* ------------------------------------------------------------------ import (property level)
@@ -329,6 +350,8 @@ ImportRx(doc, r) ==
                     s1 |-> IF IsHill(t) THEN SpIdx(d.ann.s1) ELSE 1, d |-> IF IsProp(t) THEN SpIdx(d.ann.d) ELSE 1,
                     rate |-> NoRate, gkeys |-> << >>]
               ELSE GenLaw(d.kl, << >>, One, One),
+     pn   |-> IF d.ann.has THEN [k |-> d.ann.k, K |-> IF IsHill(t) THEN d.ann.K ELSE "", n |-> IF IsHill(t) THEN d.ann.n ELSE ""]
+              ELSE NoPn,
      loc  |-> loc,
      delay |-> IF d.dann.has
                THEN [type |-> d.dann.type, p1 |-> env[d.dann.p1], p2 |-> IF d.dann.type = "fixed" THEN Zero ELSE env[d.dann.p2]]
@@ -337,7 +360,7 @@ ImportRx(doc, r) ==
 \* every rate rule contributes its formula once to the derivative of its variable and to nothing else:
 \* a source reaction  0 -> var  with the formula as rate
 RateRuleRx(ru) == [sto |-> [i \in Sp |-> IF SpName(i) = ru.var THEN 1 ELSE 0], dsto |-> [i \in Sp |-> 0],
-                   law |-> GenLaw(ru.math, << >>, One, One), loc |-> EmptyF, delay |-> NoDelay]
+                   law |-> GenLaw(ru.math, << >>, One, One), pn |-> NoPn, loc |-> EmptyF, delay |-> NoDelay]
 RECURSIVE RulesOfKind(_, _)
 RulesOfKind(rules, kind) == IF rules = << >> THEN << >>
                             ELSE (IF Head(rules).kind = kind THEN <<Head(rules)>> ELSE << >>) \o RulesOfKind(Tail(rules), kind)
@@ -373,8 +396,8 @@ KLHolds(m, XD, XS) ==
         ds == Export(m, TRUE) IN
     \A r \in 1..Len(m.prog.rx) :
         /\ KLIdsOK(dd, r) /\ KLIdsOK(ds, r) /\ DocStoichOK(m, dd, r) /\ DocStoichOK(m, ds, r)
-        /\ \A i \in DOMAIN XD : DefKL(dd, r, XD[i]) /\ EvalKL(dd, r, XD[i]) = Rate4(am.rx[r].law, XD[i], One, am.gp)[1]
-        /\ \A i \in DOMAIN XS : DefKL(ds, r, XS[i]) /\ EvalKL(ds, r, XS[i]) = Rate4(am.rx[r].law, XS[i], One, am.gp)[2]
+        /\ \A i \in DOMAIN XD : DefKL(dd, r, XD[i]) /\ EvalKL(dd, r, XD[i]) = RxRate4(am.rx[r], XD[i], One, am.gp)[1]
+        /\ \A i \in DOMAIN XS : DefKL(ds, r, XS[i]) /\ EvalKL(ds, r, XS[i]) = RxRate4(am.rx[r], XS[i], One, am.gp)[2]
 
 \* ------------------------------------------------------------------ C13: scoping and rule order
 \* meaning of a document as the property states it (no reaction order, rule SET)
